@@ -547,3 +547,31 @@ def c15(tier, seed, only):
     )
     chk.assumptions += ["JIT vs interpreted equivalence is NOT claimed as solver-decided (see explanation); cross-process effects (Numba cache files) are outside"]
     return chk.finish({"solve": batch}, both_modes=True)
+
+
+@check("C20")
+def c20(tier, seed, only):
+    from nusym import h_models
+
+    chk = Check("C20", tier, seed, level="other")
+    rep = h_models.run_all(tier, only)
+    chk.res.stats["paths"] = len(rep.items)
+    chk.res.stats["prop_queries"] = rep.queries
+    chk.res.stats["checks"] = rep.queries
+    chk.res.stats["solver_s"] = rep.solver_s
+    chk.violations.extend(rep.violations)
+    chk.inconclusive.extend(rep.inconclusive)
+    chk.require("C20", len(rep.items) > 20, "too few model queries")
+    chk.res.acc.samples.extend(rep.items[:6])
+    chk.extra_cov.update(
+        model_queries=rep.items,
+        evaluations=len(rep.items),
+        distinct_nontrivial=len({(i["model"], str(i["size"]), i["query"]) for i in rep.items}),
+        rule="one evaluation = one z3 query (implication, all-SAT count or optimisation) about the constraint network extracted from a real model constructor at one instance size; all are distinct (model, size, query) triples",
+        explanation="Model-level, solver-decided: the real constructors of the shipped models are executed, their constraint network Phi is extracted from the Problem object and z3 decides Phi => definition-level validity, validity => Phi (models without symmetry breaking / with functionally determined auxiliaries), symmetry-breaking variants imply validity and preserve satisfiability / the optimum, and solution counts / optima equal the literature values. That the SEARCH returns exactly the solutions of Phi is C01/C02 (micro-models); as supporting evidence the real solver (Numba-compiled) is run on every instance under three configurations and must reproduce the counts / optima.",
+    )
+    chk.functions.update(["the constructors of QueensProblem, LatinSquareProblem, LatinSquareRCProblem, Quasigroup5Problem, MagicSquareProblem, MagicSequenceProblem, GolombProblem, BIBDProblem, SchurLemmaProblem, SportsTournamentSchedulingProblem, KnapsackProblem, CircuitProblem, TSPProblem, SudokuProblem, AlphaProblem, DonaldProblem"])
+    chk.bounds = dict(sizes="queens<=6/8, latin<=3/4, quasigroup5 5/5-7, magic square 3/3-4, magic sequence<=8/10, golomb 3-5/3-6 marks, bibd (6,10,5,3,2) (7,7,3,3,1), schur 3,6,9 / ..14, sports 4 / 4,6, knapsack shipped, circuit<=4/6, tsp shipped 4x4, sudoku all givens (validity) + shipped grid, alpha, donald (quick/thorough)")
+    chk.assumptions += ["relation encoders (nusym/relations.py) are the documented relations; they are validated against the repository's unit-test vectors by the propagator checks", "instance sizes beyond the list, and that the search returns the objects at large sizes, are outside the claim", "the Golomb custom consistency algorithm is exercised only through the real-solver replay (optimum 3..6 marks)"]
+    batch = [dict(i, harness="models") for i in rep.instances if (i.get("count") is not None or i.get("optimum") is not None)]
+    return chk.finish({"models": batch}, both_modes=False, validate_jit_only=True)
